@@ -45,6 +45,9 @@ def bitsVal (xres : Bool) : List Bit → Nat   -- most significant first
 structure Ctx where
   widths : HashMap String Nat
   xres : Bool
+  /-- evaluate `$shift` of a signed `A` as an *arithmetic* shift (what the simulator computes for a part-select of a
+  signed value; used only to attribute a disagreement to the recorded finding F27, never for the verdict itself) -/
+  shiftArith : Bool := false
 
 def Ctx.width (c : Ctx) (n : String) : Nat := c.widths.getD n 0
 
@@ -376,7 +379,9 @@ def evalCombCell (c : Ctx) (env : Env) (cell : Cell) : Except String Nat := do
     if t == "$shl" then return cellShl sa aw yw a b
     if t == "$shr" then return cellShr sa aw yw a b
     return cellSshr sa aw yw a b
-  if t == "$shift" then return cellShift sa aw yw a (toInt sb bw b)
+  if t == "$shift" then
+    if c.shiftArith && sa && decide (0 ≤ toInt sb bw b) then return cellSshr true aw yw a (toInt sb bw b).toNat
+    return cellShift sa aw yw a (toInt sb bw b)
   -- arithmetic, bitwise, comparison: one reading only when the flags agree
   if sa != sb then throw s!"cell {cell.name}: {t} with A_SIGNED != B_SIGNED"
   if t == "$and" then return cellAnd sa sb aw bw yw a b
@@ -462,10 +467,10 @@ def initBits (c : Ctx) (wires : HashMap String (Option (List Bit))) : Chunk → 
 def initSpec (c : Ctx) (wires : HashMap String (Option (List Bit))) (s : SigSpec) : Nat :=
   s.chunks.foldl (fun acc ch => acc * 2 ^ chunkWidthE c ch + initBits c wires ch) 0
 
-def mkSim (f : Flat) (xres : Bool) : Except String Sim := do
+def mkSim (f : Flat) (xres : Bool) (shiftArith : Bool := false) : Except String Sim := do
   let widths := f.wires.foldl (fun (m : HashMap String Nat) w => m.insert w.1 w.2.1) {}
   let order ← schedule f.nodes
-  return { ctx := ⟨widths, xres⟩, order := order, flat := f }
+  return { ctx := ⟨widths, xres, shiftArith⟩, order := order, flat := f }
 
 /-- rows of a `$meminit_v2`: `data` and `en` most significant first -/
 def initRows (xres : Bool) (width words : Nat) (data : List Bit) : List Nat :=
